@@ -34,6 +34,9 @@ type Check struct {
 	Phases      []Phase
 	// Setup runs once per worker process before any phase (load tables, build models).
 	Setup func(w *W) error
+	// Aux runs once in the driver after the workers (auxiliary passes that need the go tool);
+	// the violations it returns are reported without the fresh-process replay (kind must say why).
+	Aux func(tier string) ([]Violation, map[string]any)
 	// Post lets the driver add check-specific coverage keys after the merge.
 	Post func(m *Merged, cov map[string]any)
 }
